@@ -80,6 +80,9 @@ type tokGen struct {
 
 func (t *tokGen) tok() string {
 	t.next++
+	if t.next >= 1001 && t.next <= 1004 { // reserved for the typed nils
+		t.next = 1005
+	}
 	return "t" + strconv.Itoa(t.next)
 }
 func (t *tokGen) err() int { t.errN++; return t.errN }
